@@ -106,7 +106,7 @@ fn payload_val(rng: &mut Rng, uid: u32, size: usize) -> Val {
     Val::Tuple(vec![Val::atom("uid"), Val::int(uid as i128), extra, filler])
 }
 
-pub fn build_items(rng: &mut Rng, mode: Mode, n_valid: usize, with_junk: bool, sender: &mut SenderCache, uid0: u32) -> Vec<Item> {
+pub fn build_items(rng: &mut Rng, mode: Mode, n_valid: usize, with_junk: bool, sender: &mut SenderCache, uid0: u32, fresh_atoms: usize) -> Vec<Item> {
     let mut items = Vec::new();
     let mut seq_id: u64 = 1000 + uid0 as u64 * 100;
     for k in 0..n_valid {
@@ -212,6 +212,11 @@ pub fn build_items(rng: &mut Rng, mode: Mode, n_valid: usize, with_junk: bool, s
         let (control, has_payload, kind) = control_of_kind(rng.below(28), uid);
         let size = *rng.pick(&[0usize, 3, 300, 70_000]);
         let payload = if has_payload { Some(payload_val(rng, uid, size)) } else { None };
+        // a connection that lives long keeps learning atoms: every message brings names nobody has sent before
+        let payload = match payload {
+            Some(p) if fresh_atoms > 0 => Some(Val::Tuple(vec![p, Val::Tuple((0..fresh_atoms).map(|i| Val::atom(&format!("fresh_{}_{}", uid, i))).collect())])),
+            other => other,
+        };
         let form_choice = match mode {
             Mode::PassThrough => 0,
             Mode::DistHeader => {
@@ -235,7 +240,7 @@ pub fn build_items(rng: &mut Rng, mode: Mode, n_valid: usize, with_junk: bool, s
             if let Some(p) = &payload {
                 collect_atoms(p, &mut atoms);
             }
-            let space = *rng.pick(&[20usize, 300, 2048]);
+            let space = if fresh_atoms > 0 { 2048 } else { *rng.pick(&[20usize, 300, 2048]) };
             let refs = plan_message(rng, sender, &atoms, 80, space);
             let mut terms: Vec<&Val> = vec![&control];
             if let Some(p) = &payload {
@@ -515,7 +520,7 @@ async fn read_half_timeline(ctx: &Ctx, seed: u64, id: usize) {
 }
 
 pub fn run(ctx: &Ctx) {
-    ctx.rule("cases = peer histories after a real handshake under three negotiated flag sets (pass-through only; + DIST_HDR_ATOM_CACHE; + FRAGMENTS): every control-message kind, payloads from a few bytes to 70 kB, distribution headers from the atom-cache sender model, legal fragmentations into 1..5 fragments, ticks, and junk frames (random bytes, truncated terms, wrong markers, non-tuples, bad payloads, fragment headers with inconsistent counts) at random positions, also between the fragments of an open sequence and claiming to belong to it (fragment id 0, = count, > count), TCP writes sliced randomly; the sequence of values returned by Connection::receive_message is compared with the sequence of valid messages sent; plus slow-peer timelines for Connection::receive_message_from_read_half (ticks, silences longer than the caller's timeout between frames, frames arriving in pieces with short pauses): every call must return the next message; evaluations = messages and junk frames judged; distinct = distinct (flag set, wire form, control kind, junk kind) combinations");
+    ctx.rule("cases = peer histories after a real handshake under three negotiated flag sets (pass-through only; + DIST_HDR_ATOM_CACHE; + FRAGMENTS): every control-message kind, payloads from a few bytes to 70 kB, distribution headers from the atom-cache sender model, legal fragmentations into 1..5 fragments, long-lived connections that learn atoms in more than 256 cache slots over all segments, ticks, and junk frames (random bytes, truncated terms, wrong markers, non-tuples, bad payloads, fragment headers with inconsistent counts) at random positions, also between the fragments of an open sequence and claiming to belong to it (fragment id 0, = count, > count), TCP writes sliced randomly; the sequence of values returned by Connection::receive_message is compared with the sequence of valid messages sent; plus slow-peer timelines for Connection::receive_message_from_read_half (ticks, silences longer than the caller's timeout between frames, frames arriving in pieces with short pauses): every call must return the next message; evaluations = messages and junk frames judged; distinct = distinct (flag set, wire form, control kind, junk kind) combinations");
     ctx.assume("a history ends with a pass-through sentinel message; a receive that fails with timeout/EOF ends the history");
     let rt = tokio::runtime::Builder::new_current_thread().enable_all().build().expect("runtime");
     let mut rng = Rng::derive(ctx.seed, 6, 1);
@@ -541,9 +546,16 @@ pub fn run(ctx: &Ctx) {
             let own_flags = if mode == Mode::PassThrough { own_flags & !FLAG_FRAGMENTS } else { own_flags };
             let peer_flags = PEER_BASE_FLAGS | FLAG_DIST_HDR_ATOM_CACHE | FLAG_FRAGMENTS;
             let mut sender = SenderCache::default();
-            let n_valid = 2 + rng.below(10);
+            // every eighth history is a connection that lives long enough to learn atoms in more slots than one
+            // cache segment has (90 messages x 12 new names over all eight segments)
+            let long_lived = (h % 8 == 6 || h % 8 == 4) && mode != Mode::PassThrough;
+            let n_valid = if long_lived { 90 } else { 2 + rng.below(10) };
             let with_junk = h % 2 == 1;
-            let items = build_items(&mut rng, mode, n_valid, with_junk, &mut sender, (h as u32) * 1000);
+            let items = build_items(&mut rng, mode, n_valid, with_junk, &mut sender, (h as u32) * 1000, if long_lived { 12 } else { 0 });
+            if long_lived {
+                ctx.class(&format!("{:?}/long-lived/{}-cache-slots-in-use", mode, if sender.slots.len() > 256 { ">256" } else { "<=256" }));
+                ctx.extra("cache_slots_in_use_in_a_long_lived_history", json!(sender.slots.len()));
+            }
             let mut stream: Vec<u8> = Vec::new();
             let mut expected: Vec<&Sent> = Vec::new();
             let mut junk_frames = 0usize;
